@@ -187,7 +187,7 @@ def collapse_swa(ctx, content_type, ns_soap_env, parser_kwargs=None):
         else:
             payload = part.get_payload()
 
-        cid = part.get("Content-ID").strip("<>")
+        cid = (part.get("Content-ID") or '').strip("<>")
         cloc = part.get("Content-Location")
         numreplaces = None
 
